@@ -169,6 +169,43 @@ def fields_case(run, specs, t, gamma, pts, dt, psd, alpha):
     return ok
 
 
+def zero_threshold_case(run, rng, scale):
+    """threshold given as exactly 0 (int, float): every strictly negative value must be rejected, however small; with the default
+    threshold the same tiny negative values are clipped to zero"""
+    from gbasis.evals import density as D
+    specs = random_basis(rng, 1, 2, lmax=1, exp_hi=5.0)
+    basis = make_basis(specs)
+    n = sum(s_.size for s_ in specs)
+    a = np.array([[core.snap(rng.uniform(-1, 1), 10) for _ in range(n)] for _ in range(n)])
+    gamma = -(a @ a.T + np.eye(n)) * scale          # negative definite, tiny
+    pts = np.array([list(specs[0].center), [0.3, -0.2, 0.4]])
+    rep = rep_of(specs, None, gamma, pts, case="zero-threshold", scale=scale)
+    run.case(("zero-threshold", scale) + sig(specs))
+    run.count("threshold exactly 0 with tiny negative values (%g)" % scale)
+    ok = True
+    for name, fn in (("evaluate_density", lambda thr: D.evaluate_density(gamma, basis, pts, threshold=thr)),
+                     ("evaluate_posdef_kinetic_energy_density", lambda thr: D.evaluate_posdef_kinetic_energy_density(gamma, basis, pts, threshold=thr))):
+        for thr in (0, 0.0):
+            try:
+                out = fn(thr)
+                run.violation(f"{name}(threshold={thr!r}) returned {out.tolist()} although the values are negative (of order {scale:g}); "
+                              "with threshold 0 every negative value must be rejected",
+                              dict(rep, function=name, threshold=thr, signature={"kind": "clip-rule-zero-threshold"}))
+                ok = False
+            except ValueError:
+                pass
+        if scale < 1e-9:
+            try:
+                out = fn(1e-8)
+                if np.any(out != 0):
+                    run.violation(f"{name}(threshold=1e-8) did not clip tiny negative values to zero", dict(rep, function=name, signature={"kind": "clip-rule"}))
+                    ok = False
+            except ValueError:
+                run.violation(f"{name}(threshold=1e-8) rejected values of order {scale:g}", dict(rep, function=name, signature={"kind": "clip-rule"}))
+                ok = False
+    return ok
+
+
 def representation_cases(run):
     """the same points / density matrix passed as other kinds of ndarray (Fortran order, strided view, read-only, int64, float32)"""
     from gbasis.evals import density as D
@@ -266,6 +303,8 @@ def check(run):
         fields_case(run, specs, t, noisy, pts, "general" if n % 2 else "direct", n % 2 == 0, 0.5)
         deriv_case(run, specs, t, noisy, pts, (1, 1, 0), "general")
         run.count("density matrix symmetric up to rounding")
+    for sc in ((1e-11, 1e-3) if quick else (1e-11, 1e-3, 1e-14, 1.0)):
+        zero_threshold_case(run, rng, sc)
     # deliberately negative densities: clip boundary
     for n in range(3 if quick else 12):
         specs, t, gamma, pts, psd = setup(rng, quick, lmax=2)
@@ -278,6 +317,10 @@ def replay(run, rep):
     n0 = len(run.violations)
     specs = specs_from(rep)
     t = None if rep.get("transform") is None else np.array(rep["transform"])
+    if rep.get("case") == "zero-threshold":
+        n0 = len(run.violations)
+        zero_threshold_case(run, run.rng, rep.get("scale", 1e-11))
+        return len(run.violations) == n0
     if rep.get("case") == "held":
         n0 = len(run.violations)
         held_results_case(run, specs_from(rep), t, np.array(rep["gamma"]), np.array(rep["points"]), rep["deriv_type"])
